@@ -415,3 +415,40 @@ def expand_at(g: C.CFG, nid: int, expr, depth: int = 5, keep=()):
                 return at(dn.id, copy.deepcopy(val), d - 1)
         return X().visit(copy.deepcopy(e))
     return at(nid, expr, depth)
+
+
+def flat_view(func: Func) -> Func:
+    """The function with its own parameterless nested generator helpers spliced in where they are run by a bare
+    ``yield from helper()`` statement - `def move(): ...; yield from move()` and the same messages written in line are one
+    and the same plan.  Only for looking at the order of yields; names are not made unique."""
+    import copy
+    import dataclasses
+
+    node = copy.deepcopy(func.node)
+    nested = {s.name: s for s in node.body if isinstance(s, ast.FunctionDef) and not s.decorator_list
+              and not (s.args.args or s.args.vararg or s.args.kwarg or s.args.kwonlyargs or s.args.posonlyargs)
+              and not any(isinstance(r, ast.Return) and r.value is not None for r in A.walk_local(s) if r is not s)}
+
+    def splice(block):
+        out = []
+        for st in block:
+            if isinstance(st, ast.Expr) and isinstance(st.value, ast.YieldFrom) and isinstance(st.value.value, ast.Call) \
+                    and isinstance(st.value.value.func, ast.Name) and st.value.value.func.id in nested and not st.value.value.args and not st.value.value.keywords:
+                body = copy.deepcopy(nested[st.value.value.func.id].body)
+                if all(not isinstance(r, ast.Return) for b in body for r in A.walk_local(b)):
+                    out.extend(splice(body))
+                    continue
+            for fld in ("body", "orelse", "finalbody"):
+                sub = getattr(st, fld, None)
+                if isinstance(sub, list) and sub and isinstance(sub[0], ast.stmt) and not isinstance(st, A.SCOPE_TYPES):
+                    setattr(st, fld, splice(sub))
+            if isinstance(st, ast.Try):
+                for h in st.handlers:
+                    h.body = splice(h.body)
+            out.append(st)
+        return out
+    node.body = splice(node.body)
+    used = {n.id for n in ast.walk(node) if isinstance(n, ast.Name) and isinstance(n.ctx, ast.Load)}
+    node.body = [s for s in node.body if not (isinstance(s, ast.FunctionDef) and s.name in nested and s.name not in used)] or [ast.Pass()]
+    ast.fix_missing_locations(node)
+    return dataclasses.replace(func, node=node)
